@@ -13,6 +13,7 @@
 Require Import List ZArith. Import ListNotations.
 Require Import F204.Base.Util F204.Base.Mach F204.Gen.Params F204.Gen.Guards
   F204.Hash.HashIface F204.Impl.MlDsa F204.Impl.Api F204.Spec.SpecMLDSA F204.Proofs.KeygenRefine.
+Require Import F204.Proofs.RealHashes.
 Open Scope Z_scope.
 
 Theorem C04_keygen_is_FIPS204 : forall H, HashLaws H -> forall P, In P all_params -> forall xi,
@@ -39,6 +40,9 @@ Qed.
 Theorem C04_keygen_rng_failure : forall H P g p,
   try_keygen_with_rng H P (Fail p :: g) = (Err RngFailed, g).
 Proof. reflexivity. Qed.
+
+(* non-vacuity of the hash hypothesis (see Proofs/RealHashes.v) *)
+Definition C04_for_the_executed_model := C04_keygen_is_FIPS204 real_hashes real_hashes_laws.
 
 Print Assumptions C04_keygen_is_FIPS204.
 Print Assumptions C04_keygen_rng_is_seeded.
